@@ -135,12 +135,17 @@ package tq
 // C18: sending the request for an action - also the repeat after an
 // authentication error - uses the transfer and the request as they are: nothing
 // of the transfer (its authenticated flag, its actions) is changed on the way.
+// C15: the request is repeated after an authentication error only when that
+// can change anything - for an action the server marked "authenticated" the
+// client adds no credentials, the repeat would be the identical request, and a
+// server that keeps answering 401 would be asked without end.
 //@ func (*basicDownloadAdapter).makeRequest
-//@   props C02 C18
+//@   props C02 C18 C15
 //@   requires @inv a != nil && t != nil && req != nil && req.URL != nil && req.Header != nil && a.apiClient != nil
 //@   modifies fresh
 //@   at call (*tq.adapterBase).doHTTP:1 assert arg1__ == t && arg2__ == req
 //@   at call (*tq.basicDownloadAdapter).makeRequest:1 assert arg1__ == t && arg2__ == req
+//@   at call (*tq.basicDownloadAdapter).makeRequest:1 assert @C15 !t.Authenticated
 //@   ensures @assumed result1 == nil ==> result0 != nil && result0.Body != nil && result0.Header != nil
 //@   ensures @assumed result0 != nil ==> result0.Header != nil
 //@ func advanceCallbackProgress
@@ -463,10 +468,11 @@ package tq
 //@   at call tq.verifyUpload:1 assert arg2__ == t && res != nil && res.StatusCode <= 299 && res.StatusCode != 403
 //@   ensures result == nil ==> verified(t)
 //@ func (*basicUploadAdapter).makeRequest
-//@   props C03 C18
+//@   props C03 C18 C15
 //@   requires @inv a != nil && t != nil && req != nil && req.URL != nil && req.Header != nil && a.apiClient != nil
 //@   modifies fresh, field req.Body, ghost fpath, ghost rrest
 //@   at call (*tq.adapterBase).doHTTP:1 assert arg1__ == t && arg2__ == req
+//@   at call (*tq.basicUploadAdapter).makeRequest:1 assert @C15 !t.Authenticated && arg1__ == t && arg2__ == req
 //@   ensures @assumed result1 == nil ==> result0 != nil && result0.Body != nil && result0.Header != nil
 //@ func (*adapterBase).setContentTypeFor
 //@   assumed
